@@ -369,6 +369,9 @@ func runC18(r *Report) {
 	}
 	r.Floor("R-C18-4", 4, "expiry-triggered removals")
 
+	// the persisted allow/deny lists: save, load and remove agree, per list type, on the storage keys
+	checkCaseConstantAgreement(r, "R-C18-5", secPkg, "IPType", 3)
+
 	// ---- R-C18-6 the bucket never holds more than its capacity --------------------------------
 	// every write of TokenBucket.tokens outside the constructor is a consumption (tokens - n), the
 	// capacity itself, or min(..., capacity): an unclamped refill lets an idle address save up an
